@@ -185,7 +185,10 @@ Gap(w, start, base, set) ==
         /\ marker' = [marker EXCEPT ![w] = IF proc THEN r[1] ELSE @]
   /\ AbsGap(w, start, base, set)
   /\ UNCHANGED <<rhb, sac, asm, cache, nidx, lastRead, latestIdx, dsc>>
-  /\ Log([a |-> "Gap", w |-> w, start |-> start, base |-> base, set |-> SetToSortSeq(set, Lt)])
+  \* the shape of the bitmap is not part of its meaning: extra in-range zero bits after the highest member, and ones in
+  \* the padding of the last word beyond numBits (undefined on the wire) - drawn for the replay, same transition
+  /\ Log([a |-> "Gap", w |-> w, start |-> start, base |-> base, set |-> SetToSortSeq(set, Lt),
+          nbits |-> RandomElement(0..3), dirty |-> RandomElement(BOOLEAN)])
 
 (* ---- DataReader::take(max, any) ---- *)
 \* fill: everything the SimpleDataReader can currently take moves to the DataSampleCache
@@ -207,7 +210,7 @@ Take(max) ==
         /\ ObsHand([i \in 1..n |-> [w |-> got[i].w, sn |-> got[i].sn, pid |-> got[i].sn, ts |-> got[i].sn,
                                     checkOrder |-> Reliable, checkHoles |-> Reliable]])
   /\ UNCHANGED <<ab, chg, rhb, sac, asm, cache, nidx, marker>>
-  /\ Log([a |-> "Take", max |-> max])
+  /\ Log([a |-> "Take", max |-> max, byinst |-> (RandomElement(1..4) = 1)])
 
 (* ---- C06: a hostile datagram of class c from peer 3 ---- *)
 \* Non-interference is all the property promises: nothing the well-behaved writers and the reader
